@@ -11,6 +11,7 @@ package main
 import (
 	"bufio"
 	"bytes"
+	"context"
 	"fmt"
 	"os"
 	"os/exec"
@@ -18,6 +19,8 @@ import (
 	"strings"
 	"sync"
 	"time"
+
+	"ariga.io/atlas/sql/migrate"
 
 	"verifharness/internal/out"
 )
@@ -128,6 +131,109 @@ func repeatMain(w *out.W, tier string) {
 			if snap != after {
 				w.Violation(id, "output-not-isolated", fmt.Sprintf("%s formatter, variant %d: the files returned by Format change after formatting two unrelated plans (shared state between calls)", f.name, v))
 			}
+		}
+	}
+	// (a2) the same input VALUE, used again: an operation must not consume or rewrite its argument.
+	// The same []schema.Change is planned three times (`schema apply` plans once to show the plan and again in
+	// ApplyChanges), the same *migrate.Plan is formatted twice.
+	for _, d := range dialects {
+		for _, sc := range []string{"create", "modify", "drop"} {
+			for v := 0; v < nVariants; v++ {
+				id := fmt.Sprintf("same-value-plan-%s-%s/%d", d.name, sc, v)
+				changes, err := mkChanges(d, v, sc)
+				if err != nil {
+					continue
+				}
+				var outs [3][]byte
+				for k := range outs {
+					func() {
+						defer func() {
+							if r := recover(); r != nil {
+								outs[k] = []byte("ERR panic")
+							}
+						}()
+						p, err := d.planner.PlanChanges(context.Background(), "det_plan", changes)
+						if err != nil {
+							outs[k] = []byte("ERR " + errClass(fmt.Errorf("plan: %w", err)))
+							return
+						}
+						outs[k] = planBytes(p)
+					}()
+				}
+				w.ImplOnly(id, "the same change-set value planned three times")
+				w.Count("same-value")
+				for k := 1; k < len(outs); k++ {
+					if !bytes.Equal(outs[0], outs[k]) {
+						w.Violation(id, "same-value-different-plan", fmt.Sprintf("%s %s variant %d: planning the same []schema.Change value again gives a different plan (call %d vs call 1): %s", d.name, sc, v, k+1, firstDiff(outs[0], outs[k])))
+						break
+					}
+				}
+			}
+		}
+	}
+	for _, f := range formatters {
+		for v := 0; v < nVariants; v++ {
+			id := fmt.Sprintf("same-value-format-%s/%d", f.name, v)
+			p, err := mkPlan(dialects[1+v%2], v, []string{"create", "modify", "drop"}[v%3])
+			if err != nil {
+				continue
+			}
+			fs1, e1 := f.f.Format(p)
+			fs2, e2 := f.f.Format(p)
+			w.ImplOnly(id, "the same plan value formatted twice")
+			w.Count("same-value")
+			if e1 != nil || e2 != nil {
+				continue
+			}
+			if a, b := filesBytes(fs1), filesBytes(fs2); !bytes.Equal(a, b) {
+				w.Violation(id, "same-value-different-files", fmt.Sprintf("%s formatter, variant %d: formatting the same plan value again gives different files: %s", f.name, v, firstDiff(a, b)))
+			}
+		}
+	}
+	// (a3) history independence of the directory checksum: a MemDir that was listed and hashed, then had files
+	// overwritten and one added, hashes like a new MemDir holding the same final content
+	for v := 0; v < nVariants; v++ {
+		id := fmt.Sprintf("hash-after-rewrite/%d", v)
+		files := dirFiles(v)
+		d := &migrate.MemDir{}
+		for _, f := range files {
+			d.WriteFile(f[0], []byte(f[1]))
+		}
+		d.Files()
+		d.Checksum()
+		final := map[string]string{}
+		for _, f := range files {
+			final[f[0]] = f[1]
+		}
+		k := 0
+		for _, f := range files {
+			if strings.HasSuffix(f[0], ".sql") && k < 2 {
+				final[f[0]] = f[1] + "-- edited\nALTER TABLE x ADD COLUMN y int;\n"
+				d.WriteFile(f[0], []byte(final[f[0]]))
+				d.Checksum()
+				k++
+			}
+		}
+		if v%2 == 1 { // also with a file added after the overwrites
+			final["2099_zz.sql"] = "CREATE TABLE zz (id int);\n"
+			d.WriteFile("2099_zz.sql", []byte(final["2099_zz.sql"]))
+		}
+		h1, err1 := d.Checksum()
+		fresh := &migrate.MemDir{}
+		for n, b := range final {
+			fresh.WriteFile(n, []byte(b))
+		}
+		h2, err2 := fresh.Checksum()
+		w.ImplOnly(id, "MemDir hashed, two files overwritten, one added, hashed again vs a new MemDir with the same content")
+		w.Count("hash-history")
+		if err1 != nil || err2 != nil {
+			w.Violation(id, "hash-history-error", fmt.Sprintf("variant %d: %v / %v", v, err1, err2))
+			continue
+		}
+		b1, _ := h1.MarshalText()
+		b2, _ := h2.MarshalText()
+		if !bytes.Equal(b1, b2) {
+			w.Violation(id, "hash-depends-on-history", fmt.Sprintf("variant %d: the checksum of a MemDir after overwriting files differs from the checksum of a new MemDir with the same files: %s", v, firstDiff(b1, b2)))
 		}
 	}
 	// (b) fresh processes
